@@ -80,7 +80,9 @@ Inductive event :=
 | EChanData (src : addr) (num : N) (data : bytes)                       (* ChannelData message, already decoded *)
 | EPeer (relay : addr) (from : addr) (data : bytes)                     (* datagram arriving at a relayed address *)
 | ETick (dt : Z)
-| ERelayErr (relay : addr).                                             (* relay socket read error *)
+| ERelayErr (relay : addr)                                              (* relay socket read error *)
+| ECtlClose (src : addr)                                                (* the client's control connection (stream listeners) ends *)
+| ESrvClose.                                                            (* Server.Close: every allocation ends *)
 
 Inductive sattr := SRelayed (a : addr) | SLifetime (secs : Z) | SMapped (a : addr) | SToken (t : N).
 
@@ -508,6 +510,18 @@ Definition h_relay_err (s : state) (relay : addr) : state * list action :=
   | None => (s, [])
   end.
 
+(* server.go readListener: when a control connection's read loop ends, the allocation of its 5-tuple is deleted *)
+Definition h_ctl_close (s : state) (src : addr) : state * list action :=
+  match find_alloc src (allocs s) with
+  | Some a => (set_allocs s (remove_alloc (a_client a) (allocs s)), close_events a)
+  | None => (s, [])
+  end.
+
+(* Server.Close: the listening sockets close, the read loops end, Manager.Close closes every allocation and
+   each relay loop deletes its allocation *)
+Definition h_srv_close (s : state) : state * list action :=
+  (set_allocs s [], flat_map close_events (allocs s)).
+
 Definition req_method (r : request) : method :=
   match r with
   | RqAllocate _ _ _ _ _ _ _ _ => MAllocate
@@ -542,6 +556,8 @@ Definition step (cfg : config) (s : state) (e : event) : state * list action :=
   | EPeer relay from d => h_peer s relay from d
   | ETick dt => h_tick s dt
   | ERelayErr relay => h_relay_err s relay
+  | ECtlClose src => h_ctl_close s src
+  | ESrvClose => h_srv_close s
   end.
 
 Fixpoint run (cfg : config) (s : state) (h : list event) : state * list (list action) :=
